@@ -49,6 +49,24 @@ theorem okDeepL_cons (o : Op) (os : List Op) : okDeepL (o :: os) = (okDeep o && 
 theorem targetsDeepL_cons (o : Op) (os : List Op) : targetsDeepL (o :: os) = targetsDeep o ++ targetsDeepL os := by
   simp [targetsDeepL]
 
+mutual
+/-- the names of the functions of all calls in the record tree -/
+def fnamesDeep : Op → List String
+  | .simple _ _ _ _ => []
+  | .buildFile _ _ f _ _ subs _ _ _ _ _ => f :: fnamesDeepL subs
+  | .subbuild f _ _ subs _ _ _ => f :: fnamesDeepL subs
+def fnamesDeepL : List Op → List String
+  | [] => []
+  | o :: os => fnamesDeep o ++ fnamesDeepL os
+end
+
+theorem fnamesDeepL_cons (o : Op) (os : List Op) : fnamesDeepL (o :: os) = fnamesDeep o ++ fnamesDeepL os := by
+  simp [fnamesDeepL]
+
+theorem versionOk_congr {a b : KSt} (h1 : a.old = b.old) (h2 : a.newVersions = b.newVersions) (f : String) :
+    versionOk a f = versionOk b f := by
+  unfold versionOk; rw [h1, h2]
+
 /-- **what any first run keeps** (arbitrary nesting): the cache stays empty, no faults appear, claims only grow, and
     a file at a claimed path is never touched again -/
 theorem run_keeps (prog : Prog) : ∀ (t : Option Path) (s : KSt), s.old.roots = [] → s.sp.failFiles = [] →
@@ -306,6 +324,16 @@ theorem replayOp_sb (s : KSt) (fname : String) (args kwargs : Json) (subs : List
   simp only [replayOp, hv, hcl, Bool.not_true, Bool.false_eq_true, Bool.or_self, if_false]
   rfl
 
+theorem fnamesDeep_bfRecord (path : Path) (cmp : Cmp) (fname : String) (args kwargs : Json) (subs : List Op)
+    (rb r' : CallRes) (s3 : KSt) :
+    fnamesDeep (bfRecord path cmp fname args kwargs subs rb r' s3) = fname :: fnamesDeepL subs := by
+  unfold bfRecord
+  cases r' <;> simp [fnamesDeep]
+
+theorem fnamesDeep_sbRecord (fname : String) (args kwargs : Json) (subs : List Op) (r : CallRes) :
+    fnamesDeep (sbRecord fname args kwargs subs r) = fname :: fnamesDeepL subs := by
+  cases r <;> simp [sbRecord, fnamesDeep]
+
 /-- what replaying the records of a run does to the replaying state, beyond `Same` -/
 structure Replayed (s' s'' : KSt) (tg : List Path) : Prop where
   old : s''.old = s'.old
@@ -349,7 +377,7 @@ theorem okDeep_sbRecord (fname : String) (args kwargs : Json) (subs : List Op) (
     accepted again, in order, by a state that looks the same and whose shelf holds the run's outputs — and the
     replay leaves that state looking like the state after the run -/
 theorem replay_run (prog : Prog) : ∀ (t : Option Path) (s s' fin : KSt),
-    s.old.roots = [] → Same s s' → (∀ f, versionOk s' f = true) →
+    s.old.roots = [] → Same s s' → (∀ f ∈ fnamesDeepL (Impl.run prog t s).2.2, versionOk s' f = true) →
     okDeepL (Impl.run prog t s).2.2 = true →
     Antichain (targetsDeepL (Impl.run prog t s).2.2) →
     (∀ p ∈ targetsDeepL (Impl.run prog t s).2.2, s.sp.fs.get p = none) →
@@ -368,13 +396,15 @@ theorem replay_run (prog : Prog) : ∀ (t : Option Path) (s s' fin : KSt),
     exact ⟨s', by simp [replayOps], hsame, rfl, rfl, rfl, fun _ _ => rfl⟩
   | query q k ih =>
     intro t s s' fin h0 hsame hv hok hanti habs hfin hsup
-    simp only [Impl.run] at hok hanti habs hfin hsup ⊢
+    simp only [Impl.run] at hv hok hanti habs hfin hsup ⊢
     have hrec : replayOp (recordOf s'.sp.dirSize (visible s'.sp) q) s' = some s' := replay_simple_complete s' q
     rw [hsame.visible, hsame.dirSize] at hrec
     unfold recordOf at hrec
     cases hrv : View.recVal s.sp.dirSize (visible s.sp) q with
     | ok v =>
-      simp only [hrv] at hok hanti habs hsup hrec ⊢
+      simp only [hrv] at hv hok hanti habs hsup hrec ⊢
+      rw [fnamesDeepL_cons] at hv
+      simp only [fnamesDeep, List.nil_append] at hv
       rw [targetsDeepL_cons] at hanti habs hsup ⊢
       simp only [targetsDeep, List.nil_append] at hanti habs hsup ⊢
       rw [okDeepL_cons] at hok
@@ -382,7 +412,9 @@ theorem replay_run (prog : Prog) : ∀ (t : Option Path) (s s' fin : KSt),
       obtain ⟨s'', h1, h2, h3⟩ := ih _ t s s' fin h0 hsame hv hok hanti habs hfin hsup
       exact ⟨s'', by simp only [replayOps, hrec]; exact h1, h2, h3⟩
     | error e =>
-      simp only [hrv] at hok hanti habs hsup hrec ⊢
+      simp only [hrv] at hv hok hanti habs hsup hrec ⊢
+      rw [fnamesDeepL_cons] at hv
+      simp only [fnamesDeep, List.nil_append] at hv
       rw [targetsDeepL_cons] at hanti habs hsup ⊢
       simp only [targetsDeep, List.nil_append] at hanti habs hsup ⊢
       rw [okDeepL_cons] at hok
@@ -391,11 +423,11 @@ theorem replay_run (prog : Prog) : ∀ (t : Option Path) (s s' fin : KSt),
       exact ⟨s'', by simp only [replayOps, hrec]; exact h1, h2, h3⟩
   | write b mt k ih =>
     intro t s s' fin h0 hsame hv hok hanti habs hfin hsup
-    simp only [Impl.run] at hok hanti habs hfin hsup ⊢
+    simp only [Impl.run] at hv hok hanti habs hfin hsup ⊢
     cases t with
     | none => exact ih none s s' fin h0 hsame hv hok hanti habs hfin hsup
     | some p =>
-      simp only at hok hanti habs hfin hsup ⊢
+      simp only at hv hok hanti habs hfin hsup ⊢
       exact ih (some p) _ s' fin h0 ⟨hsame.fs, hsame.cacheFile, hsame.dirSize, hsame.claimedFiles, hsame.claimedSubs, hsame.inProg,
         hsame.ff, hsame.ff', hsame.fsb, hsame.fsb'⟩ hv hok hanti habs hfin hsup
   | buildFile path cmp fname args kwargs body k ihb ihk =>
@@ -416,8 +448,8 @@ theorem replay_run (prog : Prog) : ∀ (t : Option Path) (s s' fin : KSt),
       obtain ⟨hsp1, hnc, hncf, hnd, hdm, _⟩ := bfSetup_ok_fields s.sp sp1 path made hsetup
       have hpne : path ≠ [] := by intro e; subst e; simp [FS.isDir, get_nil] at hnd
       have hlook := lookupFile_empty (afterSetup s sp1 path made) h0 path cmp fname args kwargs made
-      rw [run_bf_miss s t path cmp fname args kwargs body k sp1 made hsetup hlook] at hok hanti habs hfin hsup ⊢
-      simp only at hok hanti habs hfin hsup ⊢
+      rw [run_bf_miss s t path cmp fname args kwargs body k sp1 made hsetup hlook] at hv hok hanti habs hfin hsup ⊢
+      simp only at hv hok hanti habs hfin hsup ⊢
       -- the run of the function
       have hk1ff : (missStart (afterSetup s sp1 path made) path ⟨fname, some path, args, kwargs⟩).sp.failFiles = [] := by
         show sp1.failFiles = []; rw [hsp1]; exact hsame.ff
@@ -427,7 +459,8 @@ theorem replay_run (prog : Prog) : ∀ (t : Option Path) (s s' fin : KSt),
       have hab := run_absent body (some path) (missStart (afterSetup s sp1 path made) path ⟨fname, some path, args, kwargs⟩)
       have ihb' := ihb (some path) (missStart (afterSetup s sp1 path made) path ⟨fname, some path, args, kwargs⟩) (bfReplayStart s' path made)
       generalize hout : Impl.run body (some path) (missStart (afterSetup s sp1 path made) path ⟨fname, some path, args, kwargs⟩) = out
-        at hok hanti habs hfin hsup hkb hab ihb' ⊢
+        at hv hok hanti habs hfin hsup hkb hab ihb' ⊢
+      rw [fnamesDeepL_cons, fnamesDeep_bfRecord] at hv
       rw [targetsDeepL_cons, targetsDeep_bfRecord] at hanti habs hsup ⊢
       rw [okDeepL_cons, Bool.and_eq_true] at hok
       obtain ⟨⟨⟨j, hj⟩, hoksubs⟩, hokrest⟩ := And.intro (okDeep_bfRecord _ _ _ _ _ _ _ _ _ hok.1) hok.2
@@ -470,7 +503,8 @@ theorem replay_run (prog : Prog) : ∀ (t : Option Path) (s s' fin : KSt),
           rw [hsp1]; exact hsame.claimedSubs
         · show path :: s'.sp.inProg = sp1.inProg
           rw [hsp1, hsame.inProg]; rfl
-      have hv1 : ∀ f, versionOk (bfReplayStart s' path made) f = true := Same.keep_versions rfl rfl hv
+      have hv1 : ∀ f ∈ fnamesDeepL out.2.2, versionOk (bfReplayStart s' path made) f = true := fun f hf => by
+        exact (versionOk_congr (b := s') rfl rfl f).trans (hv f (by simp [hf]))
       -- nested targets are absent when the function starts, and stay on the shelf
       have hnot_made : ∀ p, ¬ p <+: path → p ∉ made := fun p hp hm => hp (hmade_pre p hm)
       have habs1 : ∀ p ∈ targetsDeepL out.2.2, (missStart (afterSetup s sp1 path made) path ⟨fname, some path, args, kwargs⟩).sp.fs.get p = none := by
@@ -549,7 +583,7 @@ theorem replay_run (prog : Prog) : ∀ (t : Option Path) (s s' fin : KSt),
         · simpa using hl
       have hreplay : replayOp (bfRecord path cmp fname args kwargs out.2.2 out.1 (bfFinish out.2.1.sp path made out.1).1
           (withSp out.2.1 (bfFinish out.2.1.sp path made out.1).2)) s' = some (adopt s2' path made) := by
-        rw [hrec, replayOp_bf s' path cmp fname args kwargs out.2.2 j _ c made (hv fname) hom
+        rw [hrec, replayOp_bf s' path cmp fname args kwargs out.2.2 j _ c made (hv fname (by simp)) hom
           (by rw [hsame.claimedFiles]; exact hnc) (by rw [hsame.cacheFile]; exact hncf) (by rw [hsame.fs]; exact habs_path) hdm' hlong, hrep2]
       -- after the replayed call
       have hshelf2_path : s2'.shelf.get path = some (.file c m) := by
@@ -572,8 +606,10 @@ theorem replay_run (prog : Prog) : ∀ (t : Option Path) (s s' fin : KSt),
           rw [hfinOk]; exact hsame2.claimedSubs
         · show s2'.sp.inProg.erase path = (bfFinish _ path made out.1).2.inProg
           rw [hfinOk, hsame2.inProg]; rfl
-      have hv3 : ∀ f, versionOk (adopt s2' path made) f = true :=
-        Same.keep_versions (show (adopt s2' path made).old = s'.old from hR2.old) (show (adopt s2' path made).newVersions = s'.newVersions from hR2.nv) hv
+      have hv3 : ∀ f ∈ fnamesDeepL (Impl.run (k (bfFinish out.2.1.sp path made out.1).1) t (withSp out.2.1 (bfFinish out.2.1.sp path made out.1).2)).2.2,
+          versionOk (adopt s2' path made) f = true := fun f hf => by
+        rw [versionOk_congr (b := s') (show (adopt s2' path made).old = s'.old from hR2.old) (show (adopt s2' path made).newVersions = s'.newVersions from hR2.nv)]
+        exact hv f (by simp [hf])
       have hrest_path : ∀ p ∈ targetsDeepL (Impl.run (k (bfFinish out.2.1.sp path made out.1).1) t (withSp out.2.1 (bfFinish out.2.1.sp path made out.1).2)).2.2,
           p ≠ path ∧ ¬ p <+: path ∧ ¬ path <+: p := by
         intro p hp
@@ -624,13 +660,14 @@ theorem replay_run (prog : Prog) : ∀ (t : Option Path) (s s' fin : KSt),
       simp [okDeepL, okDeep] at hok
     · have hc' : s.sp.claimedSubs.any (heq (subKey fname args kwargs)) = false := by simpa using hc
       have hlook := lookupSub_empty (subClaim s (subKey fname args kwargs)) h0 fname args kwargs
-      rw [run_sb_miss' s t fname args kwargs body k hc' hfs hlook] at hok hanti habs hfin hsup ⊢
-      simp only at hok hanti habs hfin hsup ⊢
+      rw [run_sb_miss' s t fname args kwargs body k hc' hfs hlook] at hv hok hanti habs hfin hsup ⊢
+      simp only at hv hok hanti habs hfin hsup ⊢
       have hkb := run_keeps body none (Impl.subStart (subClaim s (subKey fname args kwargs)) ⟨fname, none, args, kwargs⟩) h0 hsame.ff hsame.fsb
       have hab := run_absent body none (Impl.subStart (subClaim s (subKey fname args kwargs)) ⟨fname, none, args, kwargs⟩)
       have ihb' := ihb none (Impl.subStart (subClaim s (subKey fname args kwargs)) ⟨fname, none, args, kwargs⟩) (subClaim s' (subKey fname args kwargs))
       generalize hout : Impl.run body none (Impl.subStart (subClaim s (subKey fname args kwargs)) ⟨fname, none, args, kwargs⟩) = out
-        at hok hanti habs hfin hsup hkb hab ihb' ⊢
+        at hv hok hanti habs hfin hsup hkb hab ihb' ⊢
+      rw [fnamesDeepL_cons, fnamesDeep_sbRecord] at hv
       rw [targetsDeepL_cons, targetsDeep_sbRecord] at hanti habs hsup ⊢
       rw [okDeepL_cons, Bool.and_eq_true] at hok
       obtain ⟨⟨j, hj⟩, hoksubs⟩ := okDeep_sbRecord _ _ _ _ _ hok.1
@@ -639,7 +676,8 @@ theorem replay_run (prog : Prog) : ∀ (t : Option Path) (s s' fin : KSt),
         refine ⟨hsame.fs, hsame.cacheFile, hsame.dirSize, hsame.claimedFiles, ?_, hsame.inProg, hsame.ff, hsame.ff', hsame.fsb, hsame.fsb'⟩
         show subKey fname args kwargs :: s'.sp.claimedSubs = subKey fname args kwargs :: s.sp.claimedSubs
         rw [hsame.claimedSubs]
-      have hv1 : ∀ f, versionOk (subClaim s' (subKey fname args kwargs)) f = true := Same.keep_versions rfl rfl hv
+      have hv1 : ∀ f ∈ fnamesDeepL out.2.2, versionOk (subClaim s' (subKey fname args kwargs)) f = true := fun f hf => by
+        exact (versionOk_congr (b := s') rfl rfl f).trans (hv f (by simp [hf]))
       have hkeep3 := run_keeps (k out.1) t out.2.1 (by rw [hkb.old]; exact h0) hkb.ff hkb.fsb
       have hfin2 : FirstKeeps out.2.1 fin := hkeep3.trans hfin
       obtain ⟨s2', hrep2, hsame2, hR2⟩ := ihb' fin h0 hsame1 hv1 hoksubs hanti.left
@@ -647,8 +685,9 @@ theorem replay_run (prog : Prog) : ∀ (t : Option Path) (s s' fin : KSt),
       have hreplay : replayOp (sbRecord fname args kwargs out.2.2 out.1) s' = some s2' := by
         rw [hj]
         show replayOp (.subbuild fname args kwargs out.2.2 j false false) s' = _
-        rw [replayOp_sb s' fname args kwargs out.2.2 j (hv fname) (by rw [hsame.claimedSubs]; exact hc'), hrep2]
-      have hv3 : ∀ f, versionOk s2' f = true := Same.keep_versions hR2.old hR2.nv hv
+        rw [replayOp_sb s' fname args kwargs out.2.2 j (hv fname (by simp)) (by rw [hsame.claimedSubs]; exact hc'), hrep2]
+      have hv3 : ∀ f ∈ fnamesDeepL (Impl.run (k out.1) t out.2.1).2.2, versionOk s2' f = true := fun f hf => by
+        rw [versionOk_congr (b := s') hR2.old hR2.nv]; exact hv f (by simp [hf])
       have hrest_sub : ∀ p ∈ targetsDeepL (Impl.run (k out.1) t out.2.1).2.2, ∀ p' ∈ targetsDeepL out.2.2, ¬ p <+: p' := by
         intro p hp p' hp'
         exact (Antichain.ne_of_mem_append hanti hp' hp).2.2
@@ -703,7 +742,7 @@ def argsRefl : Op → Bool
     whose cache holds the records of the first and whose shelf still holds the outputs as the first build left them,
     invokes NO user function and returns the same value. -/
 theorem nested_second_run (prog : Prog) : ∀ (t : Option Path) (s s' fin : KSt),
-    s.old.roots = [] → Same s s' → (∀ f, versionOk s' f = true) →
+    s.old.roots = [] → Same s s' → (∀ f ∈ fnamesDeepL (Impl.run prog t s).2.2, versionOk s' f = true) →
     okDeepL (Impl.run prog t s).2.2 = true →
     (∀ o ∈ (Impl.run prog t s).2.2, cachedIn s'.old o ∧ argsRefl o = true) →
     Antichain (targetsDeepL (Impl.run prog t s).2.2) →
@@ -725,18 +764,22 @@ theorem nested_second_run (prog : Prog) : ∀ (t : Option Path) (s s' fin : KSt)
     refine ⟨?_, ?_, hsame, ?_, ?_⟩ <;> first | rfl | trivial
   | query q k ih =>
     intro t s s' fin h0 hsame hv hok hc hanti habs hfin hsup
-    simp only [Impl.run] at hok hc hanti habs hfin hsup ⊢
+    simp only [Impl.run] at hv hok hc hanti habs hfin hsup ⊢
     rw [hsame.visible, hsame.dirSize]
     cases hrv : View.recVal s.sp.dirSize (visible s.sp) q with
     | ok v =>
-      simp only [hrv] at hok hc hanti habs hsup
+      simp only [hrv] at hv hok hc hanti habs hsup
+      rw [fnamesDeepL_cons] at hv
+      simp only [fnamesDeep, List.nil_append] at hv
       rw [targetsDeepL_cons] at hanti habs hsup
       simp only [targetsDeep, List.nil_append] at hanti habs hsup
       rw [okDeepL_cons] at hok
       simp only [okDeep, Bool.true_and] at hok
       exact ih _ t s s' fin h0 hsame hv hok (fun o ho => hc o (List.mem_cons_of_mem _ ho)) hanti habs hfin hsup
     | error e =>
-      simp only [hrv] at hok hc hanti habs hsup
+      simp only [hrv] at hv hok hc hanti habs hsup
+      rw [fnamesDeepL_cons] at hv
+      simp only [fnamesDeep, List.nil_append] at hv
       rw [targetsDeepL_cons] at hanti habs hsup
       simp only [targetsDeep, List.nil_append] at hanti habs hsup
       rw [okDeepL_cons] at hok
@@ -744,15 +787,15 @@ theorem nested_second_run (prog : Prog) : ∀ (t : Option Path) (s s' fin : KSt)
       exact ih _ t s s' fin h0 hsame hv hok (fun o ho => hc o (List.mem_cons_of_mem _ ho)) hanti habs hfin hsup
   | write b mt k ih =>
     intro t s s' fin h0 hsame hv hok hc hanti habs hfin hsup
-    simp only [Impl.run] at hok hc hanti habs hfin hsup ⊢
+    simp only [Impl.run] at hv hok hc hanti habs hfin hsup ⊢
     cases t with
     | none => exact ih none s s' fin h0 hsame hv hok hc hanti habs hfin hsup
     | some p =>
-      simp only at hok hc hanti habs hfin hsup ⊢
+      simp only at hv hok hc hanti habs hfin hsup ⊢
       have := ih (some p) (liftSp s fun sp => { sp with pending := (p, b, mt.getD sp.clock) :: sp.pending, clock := sp.clock + 1 })
         (liftSp s' fun sp => { sp with pending := (p, b, mt.getD sp.clock) :: sp.pending, clock := sp.clock + 1 }) fin h0
         ⟨hsame.fs, hsame.cacheFile, hsame.dirSize, hsame.claimedFiles, hsame.claimedSubs, hsame.inProg,
-          hsame.ff, hsame.ff', hsame.fsb, hsame.fsb'⟩ (Same.keep_versions rfl rfl hv) hok hc hanti habs hfin hsup
+          hsame.ff, hsame.ff', hsame.fsb, hsame.fsb'⟩ (fun f hf => by exact (versionOk_congr (b := s') rfl rfl f).trans (hv f hf)) hok hc hanti habs hfin hsup
       exact this
   | buildFile path cmp fname args kwargs body k ihb ihk =>
     intro t s s' fin h0 hsame hv hok hc hanti habs hfin hsup
@@ -772,8 +815,8 @@ theorem nested_second_run (prog : Prog) : ∀ (t : Option Path) (s s' fin : KSt)
       obtain ⟨hsp1, hnc, hncf, hnd, hdm, _⟩ := bfSetup_ok_fields s.sp sp1 path made hsetup
       have hpne : path ≠ [] := by intro e; subst e; simp [FS.isDir, get_nil] at hnd
       have hlook := lookupFile_empty (afterSetup s sp1 path made) h0 path cmp fname args kwargs made
-      rw [run_bf_miss s t path cmp fname args kwargs body k sp1 made hsetup hlook] at hok hc hanti habs hfin hsup ⊢
-      simp only at hok hc hanti habs hfin hsup ⊢
+      rw [run_bf_miss s t path cmp fname args kwargs body k sp1 made hsetup hlook] at hv hok hc hanti habs hfin hsup ⊢
+      simp only at hv hok hc hanti habs hfin hsup ⊢
       have hk1ff : (missStart (afterSetup s sp1 path made) path ⟨fname, some path, args, kwargs⟩).sp.failFiles = [] := by
         show sp1.failFiles = []; rw [hsp1]; exact hsame.ff
       have hk1fs : (missStart (afterSetup s sp1 path made) path ⟨fname, some path, args, kwargs⟩).sp.failSubs = [] := by
@@ -783,7 +826,8 @@ theorem nested_second_run (prog : Prog) : ∀ (t : Option Path) (s s' fin : KSt)
       have hrr := replay_run body (some path) (missStart (afterSetup s sp1 path made) path ⟨fname, some path, args, kwargs⟩)
         (afterSetup s' (setupState s'.sp path made) path made)
       generalize hout : Impl.run body (some path) (missStart (afterSetup s sp1 path made) path ⟨fname, some path, args, kwargs⟩) = out
-        at hok hc hanti habs hfin hsup hkb hab hrr ⊢
+        at hv hok hc hanti habs hfin hsup hkb hab hrr ⊢
+      rw [fnamesDeepL_cons, fnamesDeep_bfRecord] at hv
       rw [targetsDeepL_cons, targetsDeep_bfRecord] at hanti habs hsup
       rw [okDeepL_cons, Bool.and_eq_true] at hok
       obtain ⟨⟨⟨j, hj⟩, hoksubs⟩, hokrest⟩ := And.intro (okDeep_bfRecord _ _ _ _ _ _ _ _ _ hok.1) hok.2
@@ -827,7 +871,8 @@ theorem nested_second_run (prog : Prog) : ∀ (t : Option Path) (s s' fin : KSt)
           rw [hsp1]; exact hsame.claimedSubs
         · show path :: s'.sp.inProg = sp1.inProg
           rw [hsp1, hsame.inProg]; rfl
-      have hv1 : ∀ f, versionOk (afterSetup s' (setupState s'.sp path made) path made) f = true := Same.keep_versions rfl rfl hv
+      have hv1 : ∀ f ∈ fname :: fnamesDeepL out.2.2, versionOk (afterSetup s' (setupState s'.sp path made) path made) f = true := fun f hf => by
+        exact (versionOk_congr (b := s') rfl rfl f).trans (hv f (by simp at hf; rcases hf with hf | hf <;> simp [hf]))
       have habs1 : ∀ p ∈ targetsDeepL out.2.2, (missStart (afterSetup s sp1 path made) path ⟨fname, some path, args, kwargs⟩).sp.fs.get p = none := by
         intro p hp
         show sp1.fs.get p = none
@@ -884,7 +929,7 @@ theorem nested_second_run (prog : Prog) : ∀ (t : Option Path) (s s' fin : KSt)
       have hshelf1_path : (afterSetup s' (setupState s'.sp path made) path made).shelf.get path = some (.file c m) := by
         rw [hcw path (Or.inr rfl) hpath_made]; exact hshelf_path
       -- replay of the nested records inside the look-up
-      obtain ⟨s2', hrep2, hsame2, hR2⟩ := hrr fin h0 hsame1 hv1 hoksubs hanti_sub habs1 hfin2 (by
+      obtain ⟨s2', hrep2, hsame2, hR2⟩ := hrr fin h0 hsame1 (fun f hf => hv1 f (List.mem_cons_of_mem _ hf)) hoksubs hanti_sub habs1 hfin2 (by
         intro p hp
         rw [hcw p (Or.inl (hsub_path p hp).2.2) (hnot_made p (hsub_path p hp).2.1)]
         exact hsup p (by simp [hp]))
@@ -903,7 +948,7 @@ theorem nested_second_run (prog : Prog) : ∀ (t : Option Path) (s s' fin : KSt)
       simp only [cachedIn] at hold'
       simp only [argsRefl, Bool.and_eq_true] at hargs
       have hlook' := lookupFile_hit' (afterSetup s' (setupState s'.sp path made) path made) s2' path cmp fname args kwargs made
-        out.2.2 j (View.cmpResult cmp c m) c c m c m hold' (hv1 fname) hargs.1 hargs.2 hpne hshelf1_path (cmpResult_refl cmp c m) hrep2 hshelf2_path
+        out.2.2 j (View.cmpResult cmp c m) c c m c m hold' (hv1 fname (List.mem_cons_self ..)) hargs.1 hargs.2 hpne hshelf1_path (cmpResult_refl cmp c m) hrep2 hshelf2_path
       rw [run_bf_hit s' t path cmp fname args kwargs body k _ made _ _ hsetup' hlook']
       simp only [opRet]
       have hsame3 : Same (withSp out.2.1 (bfFinish out.2.1.sp path made out.1).2) (adopt s2' path made) := by
@@ -924,7 +969,9 @@ theorem nested_second_run (prog : Prog) : ∀ (t : Option Path) (s s' fin : KSt)
           rw [hfinOk, hsame2.inProg]; rfl
       have hold3 : (adopt s2' path made).old = s'.old := hR2.old
       have hnv3 : (adopt s2' path made).newVersions = s'.newVersions := hR2.nv
-      have hv3 : ∀ f, versionOk (adopt s2' path made) f = true := Same.keep_versions hold3 hnv3 hv
+      have hv3 : ∀ f ∈ fnamesDeepL (Impl.run (k (bfFinish out.2.1.sp path made out.1).1) t (withSp out.2.1 (bfFinish out.2.1.sp path made out.1).2)).2.2,
+          versionOk (adopt s2' path made) f = true := fun f hf => by
+        rw [versionOk_congr (b := s') hold3 hnv3]; exact hv f (by simp [hf])
       have hrest_path : ∀ p ∈ targetsDeepL (Impl.run (k (bfFinish out.2.1.sp path made out.1).1) t (withSp out.2.1 (bfFinish out.2.1.sp path made out.1).2)).2.2,
           p ≠ path ∧ ¬ p <+: path ∧ ¬ path <+: p := by
         intro p hp
@@ -972,13 +1019,14 @@ theorem nested_second_run (prog : Prog) : ∀ (t : Option Path) (s s' fin : KSt)
     · have hcl0 : s.sp.claimedSubs.any (heq (subKey fname args kwargs)) = false := by simpa using hcl
       have hcl' : s'.sp.claimedSubs.any (heq (subKey fname args kwargs)) = false := by rw [hsame.claimedSubs]; exact hcl0
       have hlook := lookupSub_empty (subClaim s (subKey fname args kwargs)) h0 fname args kwargs
-      rw [run_sb_miss' s t fname args kwargs body k hcl0 hfs hlook] at hok hc hanti habs hfin hsup ⊢
-      simp only at hok hc hanti habs hfin hsup ⊢
+      rw [run_sb_miss' s t fname args kwargs body k hcl0 hfs hlook] at hv hok hc hanti habs hfin hsup ⊢
+      simp only at hv hok hc hanti habs hfin hsup ⊢
       have hkb := run_keeps body none (Impl.subStart (subClaim s (subKey fname args kwargs)) ⟨fname, none, args, kwargs⟩) h0 hsame.ff hsame.fsb
       have hab := run_absent body none (Impl.subStart (subClaim s (subKey fname args kwargs)) ⟨fname, none, args, kwargs⟩)
       have hrr := replay_run body none (Impl.subStart (subClaim s (subKey fname args kwargs)) ⟨fname, none, args, kwargs⟩) (subClaim s' (subKey fname args kwargs))
       generalize hout : Impl.run body none (Impl.subStart (subClaim s (subKey fname args kwargs)) ⟨fname, none, args, kwargs⟩) = out
-        at hok hc hanti habs hfin hsup hkb hab hrr ⊢
+        at hv hok hc hanti habs hfin hsup hkb hab hrr ⊢
+      rw [fnamesDeepL_cons, fnamesDeep_sbRecord] at hv
       rw [targetsDeepL_cons, targetsDeep_sbRecord] at hanti habs hsup
       rw [okDeepL_cons, Bool.and_eq_true] at hok
       obtain ⟨⟨j, hj⟩, hoksubs⟩ := okDeep_sbRecord _ _ _ _ _ hok.1
@@ -987,20 +1035,22 @@ theorem nested_second_run (prog : Prog) : ∀ (t : Option Path) (s s' fin : KSt)
         refine ⟨hsame.fs, hsame.cacheFile, hsame.dirSize, hsame.claimedFiles, ?_, hsame.inProg, hsame.ff, hsame.ff', hsame.fsb, hsame.fsb'⟩
         show subKey fname args kwargs :: s'.sp.claimedSubs = subKey fname args kwargs :: s.sp.claimedSubs
         rw [hsame.claimedSubs]
-      have hv1 : ∀ f, versionOk (subClaim s' (subKey fname args kwargs)) f = true := Same.keep_versions rfl rfl hv
+      have hv1 : ∀ f ∈ fname :: fnamesDeepL out.2.2, versionOk (subClaim s' (subKey fname args kwargs)) f = true := fun f hf => by
+        exact (versionOk_congr (b := s') rfl rfl f).trans (hv f (by simp at hf; rcases hf with hf | hf <;> simp [hf]))
       have hkeep3 := run_keeps (k out.1) t out.2.1 (by rw [hkb.old]; exact h0) hkb.ff hkb.fsb
       have hfin2 : FirstKeeps out.2.1 fin := hkeep3.trans hfin
-      obtain ⟨s2', hrep2, hsame2, hR2⟩ := hrr fin h0 hsame1 hv1 hoksubs hanti.left
+      obtain ⟨s2', hrep2, hsame2, hR2⟩ := hrr fin h0 hsame1 (fun f hf => hv1 f (List.mem_cons_of_mem _ hf)) hoksubs hanti.left
         (fun p hp => habs p (by simp [hp])) hfin2 (fun p hp => hsup p (by simp [hp]))
       obtain ⟨r0, s20, subs0⟩ := out
-      simp only at hok hc hanti habs hfin hsup hkb hab hrr hj hoksubs hokrest hkeep3 hfin2 hrep2 hsame2 hR2 ⊢
+      simp only at hv hv1 hok hc hanti habs hfin hsup hkb hab hrr hj hoksubs hokrest hkeep3 hfin2 hrep2 hsame2 hR2 ⊢
       subst hj
       obtain ⟨hold', _⟩ := hc _ (List.mem_cons_self ..)
       simp only [sbRecord, cachedIn] at hold'
-      have hlook' := lookupSub_hit (subClaim s' (subKey fname args kwargs)) s2' fname args kwargs subs0 j hold' (hv1 fname) hrep2
+      have hlook' := lookupSub_hit (subClaim s' (subKey fname args kwargs)) s2' fname args kwargs subs0 j hold' (hv1 fname (List.mem_cons_self ..)) hrep2
       rw [run_sb_hit s' t fname args kwargs body k _ _ hcl' hfs' hlook']
       simp only [opRet]
-      have hv3 : ∀ f, versionOk s2' f = true := Same.keep_versions hR2.old hR2.nv hv
+      have hv3 : ∀ f ∈ fnamesDeepL (Impl.run (k (.ok j)) t s20).2.2, versionOk s2' f = true := fun f hf => by
+        rw [versionOk_congr (b := s') hR2.old hR2.nv]; exact hv f (by simp [hf])
       have hrest_sub : ∀ p ∈ targetsDeepL (Impl.run (k (.ok j)) t s20).2.2, ∀ p' ∈ targetsDeepL subs0, ¬ p <+: p' := by
         intro p hp p' hp'
         exact (Antichain.ne_of_mem_append hanti hp' hp).2.2
@@ -1042,7 +1092,7 @@ example : (Impl.run nRoot none nS').2.1.sp.invLog = [] ∧ (Impl.run nRoot none 
   have hkeep := run_keeps nRoot none fxS rfl rfl rfl
   have h := nested_second_run nRoot none fxS nS' (Impl.run nRoot none fxS).2.1 rfl
     ⟨rfl, rfl, rfl, rfl, rfl, rfl, rfl, rfl, rfl, rfl⟩
-    (fun f => by simp [versionOk, nS', verOf, isEqual])
+    (fun f _ => by simp [versionOk, nS', verOf, isEqual])
     (by rw [hops]; simp [okDeepL, okDeep])
     (by rw [hops]; intro o ho; simp at ho; subst ho
         simp [cachedIn, argsRefl, nS', nOps, CacheRec.getSub, hops, registeredL, registered, Op.isSubWith, FB.heq, FB.heqL, subKey, toH, toHL, Num.eq, isEqual])
@@ -1053,5 +1103,42 @@ example : (Impl.run nRoot none nS').2.1.sp.invLog = [] ∧ (Impl.run nRoot none 
       rw [hops]; intro p hp; simp [targetsDeepL, targetsDeep] at hp; subst hp
       rw [hfs]; simp [nS', FS.get])
   exact ⟨h.2.1, hlen⟩
+
+
+/-- **C06, the other direction** ("operations that do not depend on it stay cached"): a change of the version of a
+    function that occurs nowhere in the record tree of the first run invalidates nothing — the second run still
+    invokes no user function.  (`nested_second_run` asks for equal versions only of the functions in `fnamesDeepL`.) -/
+theorem C06_unrelated_versions_stay_cached (prog : Prog) (t : Option Path) (s s' fin : KSt)
+    (h0 : s.old.roots = []) (hsame : Same s s')
+    (hv : ∀ f ∈ fnamesDeepL (Impl.run prog t s).2.2, isEqual (verOf s'.old.versions f) (verOf s'.newVersions f) = true)
+    (hok : okDeepL (Impl.run prog t s).2.2 = true)
+    (hc : ∀ o ∈ (Impl.run prog t s).2.2, cachedIn s'.old o ∧ argsRefl o = true)
+    (hanti : Antichain (targetsDeepL (Impl.run prog t s).2.2))
+    (habs : ∀ p ∈ targetsDeepL (Impl.run prog t s).2.2, s.sp.fs.get p = none)
+    (hfin : FirstKeeps (Impl.run prog t s).2.1 fin)
+    (hsup : ∀ p ∈ targetsDeepL (Impl.run prog t s).2.2, s'.shelf.get p = fin.sp.fs.get p) :
+    (Impl.run prog t s').1 = (Impl.run prog t s).1 ∧ (Impl.run prog t s').2.1.sp.invLog = s'.sp.invLog :=
+  let h := nested_second_run prog t s s' fin h0 hsame hv hok hc hanti habs hfin hsup
+  ⟨h.1, h.2.1⟩
+
+/-- the same second run as above, but the build was given a new version for a function `h` the program never calls -/
+def nS'' : KSt := { nS' with old := { nS'.old with versions := [("h", .num (.int 1))] }, newVersions := [("h", .num (.int 2))] }
+
+example : (Impl.run nRoot none nS'').2.1.sp.invLog = [] ∧ versionOk nS'' "h" = false := by
+  obtain ⟨hops, hfs, hlen⟩ := n_first
+  have hkeep := run_keeps nRoot none fxS rfl rfl rfl
+  have h := C06_unrelated_versions_stay_cached nRoot none fxS nS'' (Impl.run nRoot none fxS).2.1 rfl
+    ⟨rfl, rfl, rfl, rfl, rfl, rfl, rfl, rfl, rfl, rfl⟩
+    (by rw [hops]; intro f hf; simp [fnamesDeepL, fnamesDeep] at hf; rcases hf with rfl | rfl <;> simp [nS'', nS', verOf, isEqual])
+    (by rw [hops]; simp [okDeepL, okDeep])
+    (by rw [hops]; intro o ho; simp at ho; subst ho
+        simp [cachedIn, argsRefl, nS'', nS', nOps, CacheRec.getSub, hops, registeredL, registered, Op.isSubWith, FB.heq, FB.heqL, subKey, toH, toHL, Num.eq, isEqual])
+    (by rw [hops]; simp [targetsDeepL, targetsDeep, Antichain])
+    (by rw [hops]; intro p hp; simp [targetsDeepL, targetsDeep] at hp; subst hp; simp [fxS, FS.get])
+    (FirstKeeps.refl _ hkeep.ff hkeep.fsb)
+    (by
+      rw [hops]; intro p hp; simp [targetsDeepL, targetsDeep] at hp; subst hp
+      rw [hfs]; simp [nS'', nS', FS.get])
+  exact ⟨h.2, by simp [versionOk, nS'', nS', verOf, isEqual, Num.eq, Num.key]⟩
 
 end FB
